@@ -6,7 +6,7 @@ from odata_query import ast
 from odata_query.rewrite import AliasRewriter
 from odata_query.grammar import ODataLexer, ODataParser
 
-PROP_MODS = ["ODataVerif.Props.C14"]
+PROP_MODS = ["ODataVerif.Props.C14", "ODataVerif.Props.C14Bij"]
 MAPS = [
     {},
     {"zz": "qq"},
